@@ -48,6 +48,7 @@ type mRequest struct {
 	resolveAt int64
 	resTime   int64
 	expired   bool // expiry processed (request + reports deleted)
+	ibc       bool // created through the IBC entry point; its response packet can never be sent
 }
 
 type expect struct {
@@ -121,8 +122,68 @@ func (h *hist) openReqs() []*mRequest {
 	return out
 }
 
-// genRequest adds a request tx with its prediction. Returns the provisional model request (nil if rejected).
+// genRequest adds a request tx with its prediction.
 func (h *hist) genRequest() {
+	msg, e, r, desc, sender := h.newRequest()
+	h.add(h.w.SignTx(sender, msg), e, desc)
+	if e.ok {
+		h.reqs = append(h.reqs, r) // chosen + time filled after the block from the chain
+	}
+}
+
+// genIBCRequest creates a request the way the IBC entry point does (keeper.PrepareRequest with a source
+// channel) between two blocks. The module owns no capability for that channel, as after the channel was
+// closed: when the request resolves or expires the response packet cannot be sent. That must not cost the
+// request its result.
+func (h *hist) genIBCRequest() bool {
+	w := h.w
+	msg, e, r, desc, sender := h.newRequest()
+	ctx, write := w.Ctx().CacheContext()
+	var id oracletypes.RequestID
+	var err error
+	func() {
+		defer func() {
+			if rec := recover(); rec != nil {
+				err = fmt.Errorf("panic: %v", rec)
+			}
+		}()
+		id, err = w.App.OracleKeeper.PrepareRequest(ctx, msg, sender.Addr, &oracletypes.IBCChannel{PortId: "oracle", ChannelId: "channel-7"})
+	}()
+	h.log("IBC %s -> expect %s, got id=%d err=%v", desc, e.label, id, err)
+	h.run.Count("ibc:"+e.label, 1)
+	if (err == nil) != e.ok {
+		h.violate("ibc-request-outcome:"+e.label, fmt.Sprintf("IBC-originated %s: expected %s, PrepareRequest returned id=%d err=%v", desc, e.label, id, err))
+		return false
+	}
+	if err != nil {
+		return true
+	}
+	write()
+	r.height, r.timeUnix, r.ibc = w.Height, w.Time.Unix(), true
+	if uint64(id) != r.id {
+		h.violate("request-id", fmt.Sprintf("IBC-originated request got id %d, model expects %d", id, r.id))
+		return false
+	}
+	req := w.App.OracleKeeper.MustGetRequest(w.Ctx(), id)
+	for _, v := range req.RequestedValidators {
+		idx := -1
+		for i, a := range w.Vals {
+			if a.Val.String() == v {
+				idx = i
+			}
+		}
+		r.chosen = append(r.chosen, idx)
+	}
+	if uint64(len(r.chosen)) != r.ask {
+		h.violate("chosen-size", fmt.Sprintf("request %d: %d validators chosen, ask_count %d", id, len(r.chosen), r.ask))
+		return false
+	}
+	h.reqs = append(h.reqs, r)
+	return true
+}
+
+// newRequest draws a request, its predicted outcome and the provisional model request.
+func (h *hist) newRequest() (*oracletypes.MsgRequestData, expect, *mRequest, string, *sim.Account) {
 	rng := h.rng
 	w := h.w
 	sender := sim.Pick(rng, w.Users)
@@ -197,14 +258,11 @@ func (h *hist) genRequest() {
 		e = okExp("req-ok")
 	}
 	desc := fmt.Sprintf("request script=%d ask=%d min=%d ids=%v by %s", script, ask, minc, ids, sender.Name)
-	h.add(w.SignTx(sender, msg), e, desc)
-	if e.ok {
-		r := &mRequest{
-			id: uint64(len(h.reqs) + 1), script: script, calldata: calldata, ids: ids, extIDs: ext,
-			ask: ask, min: minc, clientID: clientID, height: w.Height + 1,
-		}
-		h.reqs = append(h.reqs, r) // chosen + time filled after the block from the chain
+	r := &mRequest{
+		id: uint64(len(h.reqs) + 1), script: script, calldata: calldata, ids: ids, extIDs: ext,
+		ask: ask, min: minc, clientID: clientID, height: w.Height + 1,
 	}
+	return msg, e, r, desc, sender
 }
 
 func (h *hist) rawsFor(r *mRequest) []oracletypes.RawReport {
@@ -548,6 +606,9 @@ func (h *hist) runBlock(dt time.Duration) bool {
 		if r.height == w.Height {
 			h.run.Count("resolved-in-the-request's-own-block", 1)
 		}
+		if r.ibc {
+			h.run.Count("ibc:resolved-while-response-cannot-be-sent", 1)
+		}
 	}
 	h.pendingQ = nil
 	for id := h.lastExp + 1; id <= uint64(len(h.reqs)); id++ {
@@ -560,6 +621,9 @@ func (h *hist) runBlock(dt time.Duration) bool {
 			r.ansCount, r.resolveAt, r.resTime = uint64(len(r.reports)), w.Height, w.Time.Unix()
 			want = append(want, res{id, r.status})
 			h.run.Count("resolve:EXPIRED", 1)
+			if r.ibc {
+				h.run.Count("ibc:expired-while-response-cannot-be-sent", 1)
+			}
 		}
 		r.expired = true
 		h.lastExp = id
@@ -754,6 +818,9 @@ func runHistory(run *sim.Run, caseID int) {
 	nBlocks := 80
 	sig := sha256.New()
 	for b := 0; b < nBlocks && !h.failed; b++ {
+		if rng.Chance(1, 6) && !h.genIBCRequest() {
+			return
+		}
 		// reports first for open requests (created in earlier blocks)
 		open := h.openReqs()
 		type cand struct {
@@ -865,7 +932,7 @@ func main() {
 	run.SetRule("one case = one generated history (own genesis, 3-8 validators, 80 blocks) of requests/reports/hostile reports, checked " +
 		"tx-by-tx and block-by-block against a sequential lifecycle model; distinct = distinct sequence of per-block (tx outcome class) lists")
 	run.Assume("Oracle script semantics of testdata.Wasm1/Wasm4 and two own WAT scripts are as documented in sim/oracle.go",
-		"IBC-originated requests are not driven", "validator selection itself is C09's business: chosen sets are read from the request event")
+		"IBC-originated requests are created through keeper.PrepareRequest with a source channel the module holds no capability for (no IBC stack, no packets): only the 'response cannot be sent' path of such requests is exercised", "validator selection itself is C09's business: chosen sets are read from the request event")
 	if run.ReplayCase != nil {
 		var c struct {
 			Case int `json:"case"`
@@ -880,7 +947,7 @@ func main() {
 	for _, c := range []string{"resolve:SUCCESS", "resolve:FAILURE", "resolve:EXPIRED", "tx:rep-ok-late", "tx:rep-duplicate",
 		"tx:rep-not-chosen", "tx:rep-after-expiry", "tx:rep-wrong-extid", "tx:rep-wrong-size", "resolve-with-more-than-min-reports-in-block",
 		"tx:rep-unauthorised-exec", "result-bytes-compared", "same-block-report:rep-ok-intime", "same-block-report:rep-not-chosen",
-		"resolved-in-the-request's-own-block"} {
+		"resolved-in-the-request's-own-block", "ibc:req-ok", "ibc:resolved-while-response-cannot-be-sent", "ibc:expired-while-response-cannot-be-sent"} {
 		run.Require(c, 1)
 	}
 	run.Finish()
